@@ -4,6 +4,7 @@ import Driver.Codec
 import Driver.Cfg
 import Driver.Corr
 import Driver.Oneway
+import Driver.Srv
 /-!
   The model driver (line protocol, DESIGN.md 3.5): reads one case per line on
   stdin, runs the executable Lean model, prints what it predicts.
@@ -39,5 +40,7 @@ def main (args : List String) : IO UInt32 := do
   | ["codec"] => loop stdin codecLine; return 0
   | ["corr"] => loop stdin corrLine; return 0
   | ["oneway"] => loop stdin onewayLine; return 0
+  | ["srv"] => loop stdin srvLine; return 0
+  | ["order"] => loop stdin orderLine; return 0
   | ["cfg"] => loopSt stdin cfgStep {}; return 0
   | _ => IO.eprintln "usage: driver <engine>"; return 2
